@@ -92,6 +92,12 @@ def draw_collection(ch, max_images=6, sizes=(60, 200, 300, 520, 700, 256, 512)):
     # saturated samples (+-inf) in one collection out of two; FITS pyramids holding infinities cannot be cascaded by
     # toasty (Builder.cascade needs DATAMIN / DATAMAX of the root tile), so workflows that cascade switch this off
     col.with_inf = ch.draw(2, kind="infinities") == 1
+    # header form: CD matrix, or PCi_j + CDELTi (what astropy's WCS.to_header() writes; CDELT1 < 0 < CDELT2). toasty
+    # compares the PC / CDELT cards of the inputs literally, so PC-form collections keep one storage parity
+    col.header_form = ("cd", "cd", "cd", "pc")[ch.draw(4, kind="header_form")]
+    if col.header_form == "pc":
+        for r in col.rects:
+            r["bottom_up"] = col.rects[0]["bottom_up"]
     return col
 
 
@@ -156,6 +162,16 @@ def header_for(col, r0, c0, h, bottom_up):
     hdr["CRVAL2"] = col.dec
     hdr["CRPIX1"] = crpix1
     hdr["CRPIX2"] = crpix2
+    if getattr(col, "header_form", "cd") == "pc":
+        cdelt1 = -col.scale
+        cdelt2 = col.scale if bottom_up else -col.scale
+        hdr["CDELT1"] = cdelt1
+        hdr["CDELT2"] = cdelt2
+        hdr["PC1_1"] = cd[0, 0] / cdelt1
+        hdr["PC1_2"] = cd[0, 1] / cdelt1
+        hdr["PC2_1"] = cd[1, 0] / cdelt2
+        hdr["PC2_2"] = cd[1, 1] / cdelt2
+        return hdr
     hdr["CD1_1"] = cd[0, 0]
     hdr["CD1_2"] = cd[0, 1]
     hdr["CD2_1"] = cd[1, 0]
@@ -194,7 +210,7 @@ def mosaic_wcs(col):
 def describe(col):
     return {"canvas_bbox": [col.R0, col.C0, col.H, col.W], "dtype": np.dtype(col.dtype).name,
             "rects": [(r["r0"], r["c0"], r["h"], r["w"], r["border"], r["holes"], "bu" if r["bottom_up"] else "td", r.get("container", "pri")) for r in col.rects],
-            "blankval": getattr(col, "blankval", None),
+            "blankval": getattr(col, "blankval", None), "header_form": getattr(col, "header_form", "cd"),
             "crpix": [col.px, col.py], "crval": [col.ra, col.dec], "scale": col.scale, "rot": col.theta}
 
 
